@@ -90,7 +90,10 @@ ExtOpts ==
     \cup { <<TRUE, s, TRUE, v>> : s \in SackFew, v \in CrFew }
 GroupsS == { [f |-> "S", ty |-> t, x |-> x] : t \in 0 .. 4, x \in ExtOpts }
 
-Groups == GroupsA \cup GroupsB \cup GroupsB0 \cup GroupsT \cup GroupsD \cup GroupsS
+(* sweep of the 16-bit halves: every value (thorough) / every 97th (quick) in every field position *)
+GroupsW == { [f |-> "W", i |-> i] : i \in 0 .. 15 }
+
+Groups == GroupsA \cup GroupsB \cup GroupsB0 \cup GroupsT \cup GroupsD \cup GroupsS \cup GroupsW
 
 ---------------------------------------------------------------------------
 (* leaves                                                                  *)
@@ -146,6 +149,13 @@ LeavesS(g) ==
               THEN F9Set ELSE F9Single \cup F9Same
     IN  { ApiHdr(g.ty, f, g.x[1], g.x[2], g.x[3], g.x[4]) : f \in fs }
 
+(* W: all 16-bit values through every field position of a header value (staggered so that the *)
+(* nine fields differ), as STATE without extensions                                            *)
+SweepF9(x) == [k \in 1 .. 9 |-> (x + k * 7919) % 65536]
+LeavesW(g) ==
+    { ApiHdr(ST_STATE, SweepF9(x), FALSE, NoSack, FALSE, 0) :
+        x \in { y \in (g.i * 4096) .. (g.i * 4096 + 4095) : Thorough \/ y % 97 = 0 } }
+
 ---------------------------------------------------------------------------
 Init == ph = "root" /\ c = << >>
 
@@ -157,11 +167,15 @@ GenNoExt     == ph = "grp" /\ c.f = "B0" /\ \E b \in LeavesB0   : P(b)
 GenTruncated == ph = "grp" /\ c.f = "T"  /\ \E b \in LeavesT(c) : P(b)
 GenFields    == ph = "grp" /\ c.f = "D"  /\ \E b \in LeavesD(c) : P(b)
 GenHeaders   == ph = "grp" /\ c.f = "S"  /\ \E a \in LeavesS(c) : ph' = "leaf" /\ c' = [k |-> "S", a |-> a]
+GenSweep     == ph = "grp" /\ c.f = "W"  /\ \E a \in LeavesW(c) : ph' = "leaf" /\ c' = [k |-> "S", a |-> a]
 
-Next == Root \/ GenFirstByte \/ GenChains \/ GenNoExt \/ GenTruncated \/ GenFields \/ GenHeaders
+Next == Root \/ GenFirstByte \/ GenChains \/ GenNoExt \/ GenTruncated \/ GenFields \/ GenHeaders \/ GenSweep
 Spec == Init /\ [][Next]_vars
 
 ---------------------------------------------------------------------------
+(* the two-byte big-endian coding of Wire.tla is a bijection on 0 .. 65535 *)
+ASSUME \A x \in 0 .. 65535 : U16(B16(x), 1) = x /\ Hi(x) \in 0 .. 255 /\ Lo(x) \in 0 .. 255
+
 IsP == ph = "leaf" /\ c.k = "P"
 IsS == ph = "leaf" /\ c.k = "S"
 
